@@ -5,3 +5,4 @@
 -/
 import SymmModel.Props.C01
 import SymmModel.Props.C01b
+import SymmModel.Props.C01c
